@@ -38,6 +38,7 @@ type CartSpec struct {
 	Missing  bool   `json:"missing,omitempty"`  // the file does not exist
 	FillSeed uint64 `json:"fill_seed,omitempty"`
 	Handler  string `json:"handler,omitempty"`  // hex (at most 8 bytes) placed at every interrupt vector instead of NOP;RETI
+	CollidingPages  bool `json:"colliding_pages,omitempty"` // two pairs of distinct pages with equal checksums (CRC-32; byte sum)
 	HeaderEveryPage bool `json:"header_every_page,omitempty"` // logo and header bytes repeated at the start of every page
 	Program2 string `json:"program2,omitempty"` // hex, placed at the window address of Entry in page Page2
 	Page2    int    `json:"page2,omitempty"`
